@@ -9,6 +9,7 @@ func allMutants() []mutant {
 	ms = append(ms, mutantsC03...)
 	ms = append(ms, mutantsC08...)
 	ms = append(ms, mutantsC04...)
+	ms = append(ms, mutantsC01...)
 	return ms
 }
 
@@ -126,4 +127,40 @@ var mutantsC04 = []mutant{
 	m1("c12-prefix-unformatted", ps("C12", "C11"), ps("C12-EXTEND", "C11-SAME"), "router.go", "r.currentGroupPrefix = prevPrefix + r.formatPath(prefix)", "r.currentGroupPrefix = prevPrefix + prefix", "group prefix not normalised"),
 	m1("c12-resource-outside-group", ps("C12", "C16"), ps("C12-VIA"), "router.go", "\tresName := strings.ToLower(ct.Elem().Name())\n\tbasePath += resName\n", "\tresName := strings.ToLower(ct.Elem().Name())\n\tbasePath += resName\n\tr.GET(basePath+\"/ping\", func(c *Context) {})\n", "Resource registers a route outside the group"),
 	m1("c12-group-writes-global", ps("C12"), ps("C12-BRACKET"), "router.go", "\t\t\tr.currentGroupHandlers = middles\n", "\t\t\tr.currentGroupHandlers = middles\n\t\t\tr.handlers = append(r.handlers, middles[0])\n", "Group leaks its first middleware into the global list"),
+}
+
+var mutantsC01 = []mutant{
+	m1("c01-irregular-forgets", ps("C01"), ps("C01-ACCUM"), "router.go", "rs, has := r.irregularRoutes[method]\n\t\tif !has {", "rs, has := r.irregularRoutes[method]\n\t\tif has {", "F1 again"),
+	m1("c01-regular-forgets", ps("C01"), ps("C01-ACCUM"), "router.go", "\t\t\tr.regularRoutes[key] = append(rs, route)", "\t\t\tr.regularRoutes[key] = append(rs[:0], route)", "first-segment list overwritten"),
+	m1("c01-escaped-prefix", ps("C01"), ps("C01-REPR"), "parse_match.go", "\targPos := strings.IndexByte(path, '{')", "\tpath = quotePointChar(path)\n\targPos := strings.IndexByte(path, '{')", "F2 again: prefix/first segment cut from escaped text"),
+	m1("c01-no-escape", ps("C01"), ps("C01-REPR"), "parse_match.go", "\t// \".\" -> \"\\.\"\n\tpath = quotePointChar(path)\n\n\t// has optional char. /blog[/{id}]  -> /blog(?:/{id})", "\t// has optional char. /blog[/{id}]  -> /blog(?:/{id})", "'.' no longer escaped before compiling"),
+	m1("c01-only-first-method", ps("C01"), ps("C01-METHODS"), "router.go", "\t\tfor _, method := range route.methods {\n\t\t\tkey := method + path\n\n\t\t\tr.counter++\n\t\t\tr.stableRoutes[key] = route\n\t\t}", "\t\t{\n\t\t\tkey := route.methods[0] + path\n\n\t\t\tr.counter++\n\t\t\tr.stableRoutes[key] = route\n\t\t}", "static routes registered for their first method only"),
+	m1("c01-residual-first", ps("C01"), ps("C01-TIERS"), "parse_match.go",
+		"\t// find in regular routes\n\tif pos := strings.IndexByte(path[1:], '/'); pos > 0 {",
+		"\tif rs, ok := r.irregularRoutes[method]; ok {\n\t\tfor _, route := range rs {\n\t\t\tif ps, ok := route.matchRegex(path); ok {\n\t\t\t\treturn route, ps\n\t\t\t}\n\t\t}\n\t}\n\t// find in regular routes\n\tif pos := strings.IndexByte(path[1:], '/'); pos > 0 {",
+		"residual list consulted before the first-segment list"),
+	m1("c01-static-after-dynamic", ps("C01", "C16"), ps("C01-TIERS"), "parse_match.go",
+		"\t// find in stable routes\n\tif route, ok := r.stableRoutes[method+path]; ok {\n\t\t// return r.newMatchResult(route, nil)\n\t\treturn route, nil\n\t}\n",
+		"",
+		"static tier removed from the front (static lookup gone)"),
+	m1("c01-last-match-wins", ps("C01"), ps("C01-TIERS"), "parse_match.go", "\t\tfor _, route := range rs {\n\t\t\tif ps, ok := route.matchRegex(path); ok {\n\t\t\t\tr.cacheDynamicRoute(method+path, ps, route)\n\t\t\t\treturn route, ps\n\t\t\t}\n\t\t}",
+		"\t\tfor _, route := range rs {\n\t\t\tif ps1, ok := route.matchRegex(path); ok {\n\t\t\t\trt, ps = route, ps1\n\t\t\t}\n\t\t}", "residual scan keeps the last match"),
+	m1("c01-reverse-scan", ps("C01"), ps("C01-TIERS"), "parse_match.go", "\t\t\tfor i := range rs {\n", "\t\t\tfor i := len(rs) - 1; i >= 0; i-- {\n", "first-segment list scanned newest first"),
+	m1("c01-writer-key-differs", ps("C01"), ps("C01-KEYS"), "parse_match.go", "\t\t\tfirst = start[1 : pos+1]", "\t\t\tfirst = start[1:pos]", "writer computes a different first segment than the reader"),
+	m1("c01-reader-key-differs", ps("C01"), ps("C01-KEYS"), "parse_match.go", "\t\tkey := method + path[1:pos+1]", "\t\tkey := method + path[0:pos+1]", "reader computes a different first segment than the writer"),
+	m1("c01-no-dollar", ps("C01"), ps("C01-ANCHOR"), "parse_match.go", "\troute.regex = regexp.MustCompile(\"^\" + regexStr + \"$\")\n\troute.goodRegex()\n\treturn\n}", "\troute.regex = regexp.MustCompile(\"^\" + regexStr)\n\troute.goodRegex()\n\treturn\n}", "pattern not anchored at the end"),
+	m1("c01-match-on-suffix", ps("C01"), ps("C01-TIERS"), "parse_match.go", "\t\t\t\tif ps, ok := rs[i].matchRegex(path); ok {", "\t\t\t\tif ps, ok := rs[i].matchRegex(path[pos:]); ok {", "regexp applied to a suffix of the path"),
+	m1("c01-cache-before-static", ps("C01", "C07"), ps("C01-TIERS"), "parse_match.go",
+		"\t// find in stable routes\n\tif route, ok := r.stableRoutes[method+path]; ok {\n\t\t// return r.newMatchResult(route, nil)\n\t\treturn route, nil\n\t}\n\n\t// find in cached routes\n\tif r.enableCaching {\n\t\troute, ok := r.cachedRoutes.Get(method + path)\n\t\tif ok {\n\t\t\treturn route, route.params\n\t\t}\n\t}\n",
+		"\tif r.enableCaching {\n\t\troute, ok := r.cachedRoutes.Get(method + path)\n\t\tif ok {\n\t\t\treturn route, route.params\n\t\t}\n\t}\n\tif route, ok := r.stableRoutes[method+path]; ok {\n\t\treturn route, nil\n\t}\n",
+		"cache consulted before the static table"),
+	// C02
+	m1("c02-name-only-custom", ps("C02"), ps("C02-ALIGN"), "parse_match.go", "\t\troute.goodRegexString(n, v)\n\t\troute.matches = append(route.matches, n)\n", "\t\troute.goodRegexString(n, v)\n\t\tif v != anyMatch {\n\t\t\troute.matches = append(route.matches, n)\n\t\t}\n", "name appended only for custom regexes"),
+	m1("c02-no-group-default", ps("C02"), ps("C02-ALIGN"), "parse_match.go", "varRegex = append(varRegex, str, \"(\"+v+\")\")", "varRegex = append(varRegex, str, v)", "default variables lose their capture group"),
+	m1("c02-no-groupcount", ps("C02", "C13"), ps("C02-GROUPS"), "parse_match.go", "\troute.regex = regexp.MustCompile(\"^\" + regexStr + \"$\")\n\troute.goodRegex()\n\treturn\n}", "\troute.regex = regexp.MustCompile(\"^\" + regexStr + \"$\")\n\treturn\n}", "F5 again"),
+	m1("c02-groupcount-lenient", ps("C02", "C13"), ps("C02-GROUPS"), "route.go", "if num := r.regex.NumSubexp(); num != len(r.matches) {", "if num := r.regex.NumSubexp(); num < len(r.matches) {", "group-count check only rejects too few groups"),
+	m1("c02-params-second-lookup", ps("C02"), ps("C02-WRITERS"), "dispatch.go", "\t\tctx.Params = params\n", "\t\t_, params, _ = r.QuickMatch(GET, path)\n\t\tctx.Params = params\n", "Params written from a second lookup"),
+	m1("c02-hit-without-params", ps("C02", "C07"), ps("C02-CACHE", "C07-VALUE"), "parse_match.go", "\t\t\treturn route, route.params\n", "\t\t\treturn route, nil\n", "cache hit loses the parameters"),
+	m1("c02-cache-other-route", ps("C02", "C07"), ps("C02-CACHE", "C07-VALUE"), "parse_match.go", "\t\t\t\tr.cacheDynamicRoute(method+path, ps, route)\n", "\t\t\t\tr.cacheDynamicRoute(method+path, ps, rs[0])\n", "another route cached for this request"),
+	m1("c02-copy-drops-params", ps("C02", "C07"), ps("C02-CACHE", "C07-VALUE", "C07-COPY"), "route.go", "\tnr.params = ps\n", "", "cached copy without parameters"),
 }
